@@ -12,7 +12,7 @@ import os
 import re
 
 from .core import AnalysisError, loc, norm_src, walk_no_nested, dotted, str_const
-from .symx import Interp, Obj, PList, Path, Unsupported, explore, Abort
+from .symx import Interp, Obj, PList, PDict, Path, Opaque, Unsupported, explore, Abort
 from .rat import Rat
 
 TABLE = "data/no_food_trade/computer_readable_combined.csv"
@@ -30,6 +30,8 @@ def run(index, rep):
     rep.guard(table, index, rep, rows, header)
     rep.guard(wire, index, rep, header)
     rep.guard(avg, index, rep)
+    rep.guard(korea, index, rep)
+    rep.guard(sentinel, index, rep)
 
 
 def load_table(index):
@@ -304,6 +306,127 @@ def expand_key(k, node):
                     return [tmpl.format(v) for v in range(*[a.value for a in g.iter.args])]
         n = getattr(n, "_parent", None)
     return []
+
+
+NWCSV = "src/import_scripts_no_food_trade/create_nuclear_winter_csv.py"
+
+
+def sentinel(index, rep):
+    """create_nuclear_winter_csv.clean_up_nw_csv, evaluated for one symbolic cell x of every reduction column: a valid percentage
+    (-100..1e5) becomes x/100, the averaging helper's "no data" value (9.37e36) becomes -1 (total loss) - in the final units"""
+    from .symx import NArr, NMask, _Return, NSYM
+    from .nphooks import np_hook
+    from .rat import feasible
+    from fractions import Fraction
+    rule = "C17.NODATA"
+    fn = index.func(NWCSV, "clean_up_nw_csv")
+    x = Rat.atom(("x",))
+    SENT = Rat.const(Fraction(937, 100) * 10**36)
+    neg = {"<": ">=", "<=": ">", ">": "<=", ">=": "<", "==": "!=", "!=": "=="}
+    keys = [p + str(i) for i in range(1, 11) for p in ("crop_reduction_year", "grasses_reduction_year")]
+
+    def runit(it):
+        def hook(interp, d, a, kw, node):
+            if d in ("pd.DataFrame", "pandas.DataFrame"):
+                return PDict({k: NArr([(x, Rat.atom(NSYM))]) for k in keys})
+            if isinstance(node.func, ast.Attribute) and node.func.attr in ("astype", "div", "copy", "to_numpy", "mul", "truediv"):
+                recv = interp.eval(node.func.value, interp.call_env)
+                if isinstance(recv, NArr):
+                    if node.func.attr in ("div", "truediv") and len(a) == 1:
+                        return interp.narr_binop(ast.Div(), recv, a[0], node)
+                    if node.func.attr == "mul" and len(a) == 1:
+                        return interp.narr_binop(ast.Mult(), recv, a[0], node)
+                    return recv
+            return np_hook(interp, d, a, kw, node)
+
+        it.call_hook = hook
+        env = {fn.args.args[0].arg: Opaque("raw"), fn.args.args[1].arg: Opaque("cols")}
+        try:
+            it.exec_block([s_ for s_ in fn.body if not (isinstance(s_, ast.Expr) and isinstance(s_.value, ast.Constant))], env)
+        except _Return as r:
+            return r.value
+        return None
+
+    try:
+        leaves = explore(runit, month_classes=False)
+    except Unsupported as e:
+        raise AnalysisError(f"clean_up_nw_csv outside the analysed fragment: {e}")
+    n_valid = n_sent = 0
+    for _, dec, res, it in leaves:
+        if isinstance(res, Abort) or not isinstance(res, PDict):
+            continue
+        cons = [(it.pred_exprs[k][0], it.pred_exprs[k][1] if v else neg[it.pred_exprs[k][1]]) for k, v in dec.items() if k in it.pred_exprs]
+        valid = feasible(cons + [(x + Rat.const(100), ">="), (x - Rat.const(10**5), "<=")])
+        sent = feasible(cons + [(x - SENT, "==")])
+        for k in keys:
+            v = res.d.get(k)
+            segs = v.segs if isinstance(v, NArr) else None
+            got = it.to_rat(segs[0][0]) if segs and len(segs) == 1 else None
+            if valid:
+                n_valid += 1
+                rep.check(got is not None and got == x / Rat.const(100), rule, f"{k}: valid percentage -> x/100",
+                          f"a valid percentage in {k} is not converted to the fraction x/100 (got {got})", loc=loc(NWCSV, fn))
+            if sent:
+                n_sent += 1
+                rep.check(got is not None and got == Rat.const(-1), rule, f"{k}: no-data value -> -1",
+                          f"the no-data value (9.37e36) in {k} does not become -1 = total loss in the final (fraction) units (got {got}): "
+                          "countries without data would be treated as almost unaffected", loc=loc(NWCSV, fn))
+    if n_valid < 20 or n_sent < 20:
+        raise AnalysisError(f"clean_up_nw_csv: {n_valid} valid / {n_sent} no-data cell cases analysed (expected 20 each)")
+    rep.require_min(rule, 40)
+
+
+def korea(index, rep):
+    """import_food_data.py: every table that enters the merge comes from the list the KOR/PRK iso-code correction wrote into"""
+    rule = "C17.WIRE"
+    mod = index.module(IFD)
+    fix_loops = [s_ for s_ in mod.body if isinstance(s_, ast.For) and "'KOR': 'PRK'" in norm_src(s_) and "'PRK': 'KOR'" in norm_src(s_)]
+    if len(fix_loops) != 1:
+        raise AnalysisError("import_food_data.py: the KOR/PRK correction loop was not found")
+    fl = fix_loops[0]
+    corrected = set()
+    for st in ast.walk(fl):
+        if isinstance(st, ast.Assign):
+            for t in st.targets:
+                if isinstance(t, ast.Subscript) and isinstance(t.value, ast.Name):
+                    corrected.add(t.value.id)          # written back in place
+        if isinstance(st, ast.Call) and isinstance(st.func, ast.Attribute) and st.func.attr == "append" and isinstance(st.func.value, ast.Name):
+            corrected.add(st.func.value.id)            # collected in a new list
+    if not corrected:
+        rep.violation(rule, "merge:KOR/PRK correction is stored", "the corrected table is computed but never written back into a list: the "
+                      "correction is lost and the two Koreas keep each other's data", loc=loc(IFD, fl))
+        return
+    if len(corrected) != 1:
+        raise AnalysisError(f"KOR/PRK correction: result container not identified ({sorted(corrected)})")
+    rep.ok(rule, "merge:KOR/PRK correction is stored")
+    good = corrected.pop()
+    # the merge list and everything that flows into it
+    merged = [c for c in ast.walk(mod) if isinstance(c, ast.Call) and dotted(c.func) == "reduce" and len(c.args) >= 2 and isinstance(c.args[1], ast.Name)]
+    if len(merged) != 1:
+        raise AnalysisError("import_food_data.py: the reduce(...) merge was not found")
+    mname = merged[0].args[1].id
+    sources = []
+    after = fl.lineno
+    for st in mod.body:
+        if st.lineno <= after:
+            continue
+        if isinstance(st, ast.Assign) and any(isinstance(t, ast.Name) and t.id == mname for t in st.targets):
+            for n in ast.walk(st.value):
+                if isinstance(n, ast.Subscript) and isinstance(n.value, ast.Name):
+                    sources.append((n.value.id, st))
+        if isinstance(st, ast.For):
+            apps = [c for c in ast.walk(st) if isinstance(c, ast.Call) and isinstance(c.func, ast.Attribute) and c.func.attr == "append"
+                    and isinstance(c.func.value, ast.Name) and c.func.value.id == mname]
+            if apps:
+                it_names = [n.id for n in ast.walk(st.iter) if isinstance(n, ast.Name) and n.id not in ("enumerate", "range", "len", "zip")]
+                for nme in it_names:
+                    sources.append((nme, st))
+    if len(sources) < 2:
+        raise AnalysisError("import_food_data.py: what flows into the merge list was not identified")
+    for nme, st in sources:
+        rep.check(nme == good, rule, f"merge:table source `{nme}` is the KOR/PRK-corrected list",
+                  f"tables taken from `{nme}` enter the merge, but the KOR/PRK iso-code correction wrote its result into `{good}`: for those "
+                  "tables the two Koreas keep each other's data", loc=loc(IFD, st))
 
 
 def avg(index, rep):
